@@ -155,7 +155,10 @@ def worker(q, results, lock):
             try:
                 rc, out = sh("go build ./...", cwd=d)
                 if rc != 0:
-                    res["status"] = "no-build"
+                    # a compile error names a file and a line; anything else (timeout, the machine out of memory while
+                    # other jobs run) is a failure of the harness and must not be counted as "does not build"
+                    res["status"] = "no-build" if re.search(r"\.go:\d+:\d+:", out) else "harness-error"
+                    res["build_output"] = out[-200:]
                     continue
                 rc, out = sh("/verif/bin/zogcheck -prop all -repo %s -verif %s" % (d, v), timeout=300)
                 props = sorted(set(re.findall(r"^(?:VIOLATED|UNDECIDED) (C\d\d)/", out, re.M)))
